@@ -34,8 +34,14 @@ theorem Json.wfObj_iff (kvs : List (Key Ã— Json)) : Json.wfObj kvs = true â†” âˆ
   | nil => simp [Json.wfObj]
   | cons kv r ih => cases kv; simp [Json.wfObj, ih]
 
-/-- keys of the enclosing message object that a flattened ADS-B payload must not repeat -/
-def outerKeys : List Nat := [(key! "df").id, (key! "icao24").id, (key! "tisb").id, (key! "bds").id]
+/-- keys of the `TimedMessage` record into which the message is flattened (jet1090 / decode1090 output) -/
+def timedKeys : List Nat :=
+  [(key! "timestamp").id, (key! "frame").id, (key! "metadata").id, (key! "decode_time").id]
+
+/-- keys of the enclosing message object (and of the timed record around it) that a flattened ADS-B
+    payload must not repeat -/
+def outerKeys : List Nat :=
+  [(key! "df").id, (key! "icao24").id, (key! "tisb").id, (key! "bds").id] ++ timedKeys
 
 /-- A reader's result serialises (no serde error), its visible keys are pairwise distinct and none of
     them is in `avoid`, and every value is well formed.  For a Comm-B register (nested object) use
